@@ -98,15 +98,15 @@ class Gen(proggen.ProgGen):
             return self.rng.choice([2047, 2048, -2048, -2049, 4096, 65536, 46341, -65536, 0x7FFFF800, 5000, -5000])
         return super().int_const(t)
 
-    def program(self) -> dict[str, Any]:
-        c = self.cfg
+    def reset(self) -> None:
         self.n = 0
         self.nb = 0
         self.ext_sigs = {}
         self.helpers = []
-        funcs: list[str] = []
-        if c.calls and self.rng.random() < 0.08:
-            funcs.append(self.helper())
+
+    def function(self, name: str) -> tuple[str, list[str], list[str]]:
+        """one generated function: (text, argument types, result types)"""
+        c = self.cfg
         arg_tys = ["i32"] * self.rng.randint(1, 4)
         args = [f"%a{i}" for i in range(len(arg_tys))]
         pool: dict[str, list[str]] = {"i32": list(args)}
@@ -125,10 +125,159 @@ class Gen(proggen.ProgGen):
             vs = pool.get(t, [])
             rets.append(vs[-1] if vs and self.rng.random() < 0.6 else self.pick(pool, t, lines, "  "))
         sig = ", ".join(f"{a}: {t}" for a, t in zip(args, arg_tys))
-        main = (f"func.func @main({sig}) -> ({', '.join(ret_tys)}) {{\n" + "\n".join(lines)
+        text = (f"func.func @{name}({sig}) -> ({', '.join(ret_tys)}) {{\n" + "\n".join(lines)
                 + f"\n  func.return {', '.join(rets)} : {', '.join(ret_tys)}\n}}\n")
+        return text, arg_tys, ret_tys
+
+    def program(self) -> dict[str, Any]:
+        c = self.cfg
+        self.reset()
+        funcs: list[str] = []
+        if c.calls and self.rng.random() < 0.08:
+            funcs.append(self.helper())
+        main, arg_tys, ret_tys = self.function("main")
         funcs.append(main)
         return {"text": "builtin.module {\n" + "".join(funcs) + "}\n", "arg_types": arg_tys, "ret_types": ret_tys}
+
+    def multi_program(self) -> dict[str, Any]:
+        """a module of 2-3 functions lowered to ONE assembler unit; at least two of them contain loops (mostly of a
+        shape the allocator handles: `loop_function`; the others are drawn from the general generator).  Every
+        function is an entry point of the unit.  Now and then one more function calls the others."""
+        self.reset()
+        k = self.rng.choice([2, 2, 2, 3])
+        names = ["main"] + [f"f{j}" for j in range(1, k)]
+        self.rng.shuffle(names)
+        texts: list[str] = []
+        funcs: list[dict[str, Any]] = []
+        nloops = 0
+        for j, name in enumerate(names):
+            if self.rng.random() < 0.7 or (k - j) <= 2 - nloops:
+                text, a, r = loop_function(self.rng, name)
+            else:
+                text, a, r = self.function(name)
+            nloops += "scf.for" in text
+            texts.append(text)
+            funcs.append({"name": name, "arg_types": a, "ret_types": r})
+        if self.rng.random() < 0.1:
+            callee = self.rng.choice([f for f in funcs if f["arg_types"] == ["i32", "i32"] and f["ret_types"] == ["i32"]] or [None])
+            if callee is not None:
+                texts.append(call_function("w", callee["name"]))
+                funcs.append({"name": "w", "arg_types": ["i32", "i32"], "ret_types": ["i32"]})
+        return multi_module(texts, funcs)
+
+
+LOOP_OPS = ["addi", "subi", "xori", "muli", "ori", "andi", "addi", "muli"]
+
+
+def multi_module(texts: list[str], funcs: list[dict[str, Any]]) -> dict[str, Any]:
+    main = next((f for f in funcs if f["name"] == "main"), funcs[0])
+    return {"text": "builtin.module {\n" + "".join(texts) + "}\n", "arg_types": main["arg_types"], "ret_types": main["ret_types"],
+            "funcs": funcs}
+
+
+def call_function(name: str, callee: str) -> str:
+    return (f"func.func @{name}(%a0: i32, %a1: i32) -> (i32) {{\n  %c = func.call @{callee}(%a0, %a1) : (i32, i32) -> i32\n"
+            f"  func.return %c : i32\n}}\n")
+
+
+def loop_function(rng: Any, name: str, shape: str | None = None) -> tuple[str, list[str], list[str]]:
+    """`func.func @name(i32, i32) -> i32` with at least one scf.for; every yielded value is produced after the last
+    use of the block argument it replaces (the shape the allocator handles, cf. `unsafe_source_loops`).
+    Shapes: one loop, two loops in sequence, a nested pair (inner result yielded directly or after more work);
+    bounds are constants (zero-trip, one trip, several) or `0 .. (arg & 7)`, so that the trip count depends on the
+    input; bodies use the loop-carried value, an argument, small constants and the induction variable.  Every
+    function draws its own operations and constants: code of one function executed in place of another's shows."""
+    shape = shape or rng.choice(["one", "one", "two", "nested", "nested"])
+    head: list[str] = []   # constants and bounds, defined once at the top of the function
+    body: list[str] = []
+    n = [0]
+
+    def fresh(p: str) -> str:
+        n[0] += 1
+        return f"%{p}{n[0]}"
+
+    def cidx(v: int) -> str:
+        c = fresh("c")
+        head.append(f"  {c} = arith.constant {v} : index")
+        return c
+
+    def c32(v: int) -> str:
+        c = fresh("k")
+        head.append(f"  {c} = arith.constant {v} : i32")
+        return c
+
+    def bounds() -> tuple[str, str, str]:
+        if rng.random() < 0.4:   # trip count from an argument, 0..7
+            m, u = fresh("m"), fresh("u")
+            head.append(f"  {m} = arith.andi {rng.choice(['%a0', '%a1'])}, {c32(7)} : i32")
+            head.append(f"  {u} = arith.index_cast {m} : i32 to index")
+            return cidx(0), u, cidx(rng.choice([1, 1, 2]))
+        lb, st = rng.choice([0, 0, 1, -1]), rng.choice([1, 1, 2, 3])
+        return cidx(lb), cidx(lb + st * rng.choice([0, 1, 2, 3, 4])), cidx(st)
+
+    def work(cur: str, others: list[str], ind: str, lo: int, hi: int) -> str:
+        for _ in range(rng.randint(lo, hi)):
+            v = fresh("n")
+            o = rng.choice(others) if rng.random() < 0.7 else c32(rng.choice([1, 2, 3, 5, 7, -1, 11, 2047, 4096]))
+            body.append(f"{ind}{v} = arith.{rng.choice(LOOP_OPS)} {cur}, {o} : i32")
+            cur = v
+        return cur
+
+    def loop(init: str, ind: str, nest: bool, outer: list[str]) -> str:
+        lb, ub, st = bounds()
+        r, acc, iv = fresh("r"), fresh("acc"), fresh("i")
+        body.append(f"{ind}{r} = scf.for {iv} = {lb} to {ub} step {st} iter_args({acc} = {init}) -> (i32) {{")
+        others = ["%a0", "%a1"] + outer
+        if rng.random() < 0.4:
+            ivc = fresh("j")
+            body.append(f"{ind}  {ivc} = arith.index_cast {iv} : index to i32")
+            others.append(ivc)
+        if nest:
+            inner = loop(acc, ind + "  ", False, [acc])   # the outer carried value is read inside the inner loop
+            cur = work(inner, others, ind + "  ", 0, 1)    # 0: the inner result is yielded directly
+        else:
+            cur = work(acc, others, ind + "  ", 1, 2)
+        body.append(f"{ind}  scf.yield {cur} : i32")
+        body.append(ind + "}")
+        return r
+
+    start = rng.choice(["%a0", "%a0", "%a1", c32(rng.choice([1, 7, -3]))])
+    r = loop(start, "  ", shape == "nested", [])
+    if shape == "two":
+        r = loop(r, "  ", False, [])
+    if rng.random() < 0.3:
+        v = fresh("n")
+        body.append(f"  {v} = arith.{rng.choice(LOOP_OPS)} {r}, {rng.choice(['%a0', '%a1'])} : i32")
+        r = v
+    text = (f"func.func @{name}(%a0: i32, %a1: i32) -> (i32) {{\n" + "\n".join(head + body) + f"\n  func.return {r} : i32\n}}\n")
+    return text, ["i32", "i32"], ["i32"]
+
+
+def multi_directed() -> list[dict[str, Any]]:
+    """fixed modules of several functions (re-examined on every run): 2 x one loop, 3 x mixed shapes, a loop-free
+    function between two loop functions, a function that calls a loop function"""
+    import random as _random
+
+    def fns(seed: int, spec: list[tuple[str, str]]) -> tuple[list[str], list[dict[str, Any]]]:
+        rng = _random.Random(seed)
+        texts, funcs = [], []
+        for name, shape in spec:
+            if shape == "flat":
+                t = (f"func.func @{name}(%a0: i32, %a1: i32) -> (i32) {{\n  %k = arith.constant 9 : i32\n  %v = arith.muli %a0, %k : i32\n"
+                     "  %w = arith.subi %v, %a1 : i32\n  func.return %w : i32\n}\n")
+                a, r = ["i32", "i32"], ["i32"]
+            elif shape == "call":
+                t, a, r = call_function(name, spec[0][0]), ["i32", "i32"], ["i32"]
+            else:
+                t, a, r = loop_function(rng, name, shape)
+            texts.append(t)
+            funcs.append({"name": name, "arg_types": a, "ret_types": r})
+        return texts, funcs
+    return [multi_module(*fns(1, [("f1", "one"), ("main", "one")])),
+            multi_module(*fns(2, [("main", "nested"), ("f1", "two"), ("f2", "one")])),
+            multi_module(*fns(3, [("f1", "one"), ("f2", "flat"), ("main", "nested")])),
+            multi_module(*fns(4, [("main", "two"), ("f1", "two")])),
+            multi_module(*fns(5, [("f1", "one"), ("main", "call")]))]
 
 
 def cmpi_program(pred: str, swap: bool) -> dict[str, Any]:
@@ -150,6 +299,11 @@ def directed_programs() -> list[dict[str, Any]]:
     out = [
         # loop-carried value defined while the block argument is still needed (listed allocator finding)
         prog(2, ["i32", "i32"], loop, "%r, %s"),
+        # the same finding through the zero register: the yield operand is a constant 0 defined outside the loop, so the
+        # carried value is tied to `zero` and its initial value is discarded (`mv zero, t1`)
+        prog(2, ["i32"], "  %lb = arith.constant 0 : index\n  %ub = arith.constant 3 : index\n  %st = arith.constant 1 : index\n  %z = arith.constant 0 : i32\n"
+             "  %r, %s = scf.for %i = %lb to %ub step %st iter_args(%acc = %a0, %d = %a1) -> (i32, i32) {\n"
+             "    %n = arith.addi %acc, %d : i32\n    scf.yield %n, %z : i32, i32\n  }", "%r"),
         # immediates at the 12-bit boundary, constants that wrap
         prog(1, ["i32"], "  %c = arith.constant 2048 : i32\n  %v = arith.addi %a0, %c : i32", "%v"),
         prog(1, ["i32"], "  %c = arith.constant -2048 : i32\n  %v = arith.subi %a0, %c : i32", "%v"),
@@ -451,6 +605,71 @@ def frame_after(m: Any, before: dict[str, tuple[str, set[int]]]) -> list[tuple[s
     return out
 
 
+def ir_label_defs(m: Any) -> list[str]:
+    """the symbols the module will define once printed as ONE assembler unit: every function with a body and every
+    riscv.label, in module order"""
+    from xdsl.dialects import riscv, riscv_func
+
+    out = []
+    for o in m.walk():
+        if isinstance(o, riscv_func.FuncOp) and o.body.blocks:
+            out.append(o.sym_name.data)
+        elif isinstance(o, riscv.LabelOp):
+            out.append(o.label.data)
+    return out
+
+
+LABEL_KINDS = {"body": 0, "body_end": 1, "cond": 2}
+# label kinds per loop, in the order of the Lean model's `alloc` line
+KINDS_OF_STAGE = {"C3-cf": [0, 1], "S5-labels": [2, 0, 1], "P6-asm": [2, 0, 1]}
+
+
+def loops_per_function(m: Any) -> list[tuple[str, int]]:
+    """(function, number of riscv_scf.for at any depth) in module order"""
+    from xdsl.dialects import riscv_func, riscv_scf
+
+    return [(f.sym_name.data, sum(isinstance(o, riscv_scf.ForOp) for o in f.walk()))
+            for f in m.walk() if isinstance(f, riscv_func.FuncOp) and f.body.blocks]
+
+
+def labels_per_function(names: list[str], fnames: list[str], kinds: list[int]) -> str:
+    """the unit's definitions grouped by function, each loop label as `kind.k`, sorted the way the Lean model lists
+    them (by loop number, kinds in the model's order); a name of another form is kept verbatim"""
+    import re
+
+    groups: list[list[Any]] = []
+    for n in names:
+        if n in fnames:
+            groups.append([])
+            continue
+        mt = re.fullmatch(r"scf_(cond|body_end|body)_(\d+)_for", n)
+        if not groups:
+            groups.append([])
+        groups[-1].append((int(mt.group(2)), kinds.index(LABEL_KINDS[mt.group(1)]) if LABEL_KINDS[mt.group(1)] in kinds else 9,
+                           f"{LABEL_KINDS[mt.group(1)]}.{mt.group(2)}") if mt else (1 << 30, 0, n))
+    return " | ".join(" ".join(x[2] for x in sorted(g)) for g in groups)
+
+
+def call_closure(src: Any) -> dict[str, set[str]]:
+    """source module: function name → the functions it can reach through func.call (itself included)"""
+    from xdsl.dialects import func
+
+    direct: dict[str, set[str]] = {}
+    for f in src.walk():
+        if isinstance(f, func.FuncOp):
+            direct[f.sym_name.data] = {o.callee.string_value() for o in f.walk() if isinstance(o, func.CallOp)}
+    out: dict[str, set[str]] = {}
+    for name in direct:
+        seen, todo = {name}, [name]
+        while todo:
+            for c in direct.get(todo.pop(), ()):
+                if c not in seen:
+                    seen.add(c)
+                    todo.append(c)
+        out[name] = seen
+    return out
+
+
 def asm_text(m: Any) -> str:
     from xdsl.dialects.riscv import riscv_code
 
@@ -667,20 +886,21 @@ def _rets(nret: int | list[str]) -> list[str]:
     return [f"a{i}" for i in range(nret)] if isinstance(nret, int) else list(nret)
 
 
-def run_ir(module: Any, regs: dict[str, int], nret: int | list[str]) -> tuple[Any, ...]:
+def run_ir(module: Any, regs: dict[str, int], nret: int | list[str], entry: str = "main") -> tuple[Any, ...]:
     mach = rv.Machine([], regs)
     ex = IRExec(module, mach)
     try:
-        ex.call("main")
+        ex.call(entry)
     except rv.Trap as e:
         return ("trap", str(e))
     return ("ok", [mach.get(r) for r in _rets(nret)], {r: mach.get(r) for r in ALL_CALLEE_SAVED}, ex.nm.n)
 
 
-def run_asm(prog: list[tuple[str, list[Any]]], regs: dict[str, int], nret: int | list[str]) -> tuple[Any, ...]:
+def run_asm(prog: list[tuple[str, list[Any]]], regs: dict[str, int], nret: int | list[str], entry: str = "main") -> tuple[Any, ...]:
+    """the whole emitted unit is loaded (labels resolved over all functions of the module), `entry` is called"""
     mach = rv.Machine(prog, regs)
     try:
-        mach.call("main")
+        mach.call(entry)
     except rv.Trap as e:
         return ("trap", str(e))
     return ("ok", [mach.get(r) for r in _rets(nret)], {r: mach.get(r) for r in ALL_CALLEE_SAVED})
@@ -738,7 +958,7 @@ def canon_rets(vals: list[int], ret_types: list[str]) -> list[Any]:
 # attribution of allocator failures
 # ------------------------------------------------------------------------------------------------
 
-def unsafe_source_loops(src: Any) -> bool:
+def unsafe_source_loops(src: Any, only: set[str] | None = None) -> bool:
     """On the *source* module (scf level, before any pass under test): does some scf.for yield a value
     that is not produced after the last use of the block argument it replaces?  That is the listed
     allocator limitation (riscv_scf.for ties yield operand and block argument without a copy):
@@ -746,11 +966,18 @@ def unsafe_source_loops(src: Any) -> bool:
     yielded twice, or defined by an op of the body while the replaced block argument is still used by
     a later op.  A value produced by an inner scf.for counts as defined after that whole loop (its
     result is a fresh value once the loop is done), so block-argument uses inside it are fine."""
-    from xdsl.dialects import scf
+    from xdsl.dialects import func, scf
     from xdsl.ir import OpResult
+
+    def fname(op: Any) -> str | None:
+        while op is not None and not isinstance(op, func.FuncOp):
+            op = op.parent_op()
+        return op.sym_name.data if op is not None else None
 
     for op in src.walk():
         if not isinstance(op, scf.ForOp):
+            continue
+        if only is not None and fname(op) not in only:   # `only`: the functions an entry point can reach
             continue
         body = op.body.block
         ops = list(body.ops)
@@ -795,11 +1022,20 @@ def interference(m: Any) -> list[dict[str, str]]:
     out: list[dict[str, str]] = []
     seen: set[tuple[int, int]] = set()
     tok: dict[int, int] = {}
+    cur = [""]   # the function being analysed
+
+    ZERO = _Tok.new()   # content of the hard-wired zero register: never changes, writes to it are discarded
 
     def regname(v: Any) -> str | None:
         t = v.type
         n = t.register_name.data if hasattr(t, "register_name") else ""
-        return n if n and n != "zero" else None
+        return "zero" if n == "x0" else (n or None)
+
+    def is_zero_const(op: Any) -> bool:
+        from xdsl.dialects.builtin import IntegerAttr
+
+        imm = getattr(op, "immediate", None)
+        return op.name.endswith(".li") and isinstance(imm, IntegerAttr) and imm.value.data == 0
 
     def name(v: Any) -> str:
         return "%" + (v.name_hint or "?")
@@ -813,13 +1049,14 @@ def interference(m: Any) -> list[dict[str, str]]:
             state.setdefault(r, tok[id(v)])
         if state.get(r) != tok[id(v)] and (id(v), id(op)) not in seen:
             seen.add((id(v), id(op)))
-            out.append({"value": name(v), "register": r, "at": op.name, "loop_carried_register": str(r in loop_regs)})
+            out.append({"value": name(v), "register": r, "at": op.name, "loop_carried_register": str(r in loop_regs),
+                        "function": cur[0]})
 
     def define(state: dict[str, int], v: Any, t: int | None = None) -> None:
         # one token per SSA value for the whole analysis (a copy carries the token of its source)
         tok[id(v)] = t if t is not None else (tok.get(id(v)) or _Tok.new())
         r = regname(v)
-        if r is not None:
+        if r is not None and r != "zero":   # a value "held" in zero reads 0 whatever was moved there
             state[r] = tok[id(v)]
 
     def merge(a: dict[str, int], b: dict[str, int]) -> tuple[dict[str, int], bool]:
@@ -887,7 +1124,7 @@ def interference(m: Any) -> list[dict[str, str]]:
                 state.update(entry)
                 for a in body.args:
                     r = regname(a)
-                    if r is not None:
+                    if r is not None and r != "zero":
                         state[r] = -_Tok.new()
                 for res in op.results:
                     define(state, res)
@@ -895,14 +1132,15 @@ def interference(m: Any) -> list[dict[str, str]]:
             for v in op.operands:
                 use(state, v, op, loop_regs)
             for res in op.results:
-                define(state, res)
+                define(state, res, ZERO if is_zero_const(op) else None)
         return None
 
     for f in m.walk():
         if isinstance(f, riscv_func.FuncOp) and f.body.blocks:
             if len(f.body.blocks) != 1:
                 continue
-            st: dict[str, int] = {}
+            st: dict[str, int] = {"zero": ZERO}
+            cur[0] = f.sym_name.data
             for a in f.body.blocks.first.args:
                 define(st, a)
             block(f.body.blocks.first.ops, st, set())
